@@ -152,6 +152,8 @@ func own(x *T, s S, y int) {
 	d.Lines = append(d.Lines, IgLine{Text: "var DG1 = Mock{}", Once: []string{"TONL01:Mock"}})
 	d.Lines = append(d.Lines, IgLine{Text: ""})
 	d.Lines = append(d.Lines, IgLine{Text: "var DG2 Mock", Once: []string{"TONL01:Mock"}})
+	d.Lines = append(d.Lines, IgLine{Text: ""})
+	d.Lines = append(d.Lines, IgLine{Text: "var DG3 = T{}"}) // the last declaration of the file is a one-liner with a diagnostic
 
 	ua := &IgFile{Pkg: PathU, Name: "a.go"}
 	lines(ua, `package u
@@ -213,8 +215,48 @@ func f1(x d.T, p *d.T, s d.S, y int) {
 		x.F = 4
 		_ = new(d.T)
 	}()
+	use(
+		d.T{},
+		y,
+	)
+	ws := []d.T{
+		{},
+		{F: 1},
+	}
+	_ = ws
+	switch y {
+	case 1:
+		x.F = 8
+		d.Helper()
+	default:
+		_ = new(d.T)
+	}
+	if y > 1 {
+		x.F = 9
+	} else {
+		x.F = 10
+	}
+	defer func() {
+		x.F = 11
+	}()
+	var (
+		lv d.T
+		lp *d.T
+	)
+	_, _ = lv, lp
+	select {
+	default:
+		x.F = 12
+	}
 	y = 5
 }
+
+func use(...any) {}
+
+var (
+	GA = d.T{}
+	GB d.T
+)
 
 func f2(x d.T) {
 	x.F = 6`)
@@ -236,6 +278,8 @@ func g1(x d.T, s d.S) {
 	lines(ub, `	var m d.Mock`, "TONL01:Mock", "PKGO01:Mock")
 	lines(ub, `	_ = m
 }
+
+var GZ = new(d.T)
 `)
 	return []*IgBase{{Name: "all16", Files: []*IgFile{d, ua, ub}}}
 }
@@ -248,6 +292,7 @@ type IgPlacement string
 
 const (
 	PlFile      IgPlacement = "file-level"   // own line before the package clause
+	PlFileDetached IgPlacement = "file-level-detached" // before the package clause, separated from it by a blank line and a header comment
 	PlDecl      IgPlacement = "before-decl"  // own line before the enclosing top-level declaration
 	PlStmt      IgPlacement = "before-stmt"  // own line before the statement (or package-level declaration) carrying the diagnostic
 	PlOuterStmt IgPlacement = "before-outer" // own line before the outermost nested statement that contains the diagnostic (if any)
@@ -258,7 +303,7 @@ const (
 	PlOtherFile IgPlacement = "other-file-level"
 )
 
-var IgPlacements = []IgPlacement{PlFile, PlDecl, PlStmt, PlOuterStmt, PlTrail, PlPrevTrail, PlNextTrail, PlSibling, PlOtherFile}
+var IgPlacements = []IgPlacement{PlFile, PlFileDetached, PlDecl, PlStmt, PlOuterStmt, PlTrail, PlPrevTrail, PlNextTrail, PlSibling, PlOtherFile}
 
 // FileInfo is the parsed structure of one base file used to place comments and compute scopes.
 type FileInfo struct {
@@ -417,6 +462,7 @@ type IgVariant struct {
 	// reference scope in VARIANT line numbers of file File: [From,To]; From==0 means nothing in scope
 	From, To int
 	Desc     string
+	insertedN int // number of inserted lines (default 1)
 }
 
 // MakeVariant inserts comment per placement relative to the diagnostic at (file fi, base line).
@@ -457,6 +503,16 @@ func MakeVariant(b *IgBase, fidx, line int, pl IgPlacement, comment string) (*Ig
 	case PlFile:
 		insertBefore(fidx, info.PackageLine(), "")
 		v.From, v.To = 1, len(nb.Files[fidx].Lines)+1
+	case PlFileDetached:
+		// comment, blank line, an ordinary header comment, blank line, package clause
+		at := info.PackageLine()
+		nf := nb.Files[fidx]
+		nl := append([]IgLine(nil), nf.Lines[:at-1]...)
+		nl = append(nl, IgLine{Text: comment}, IgLine{Text: ""}, IgLine{Text: "// Package header comment, not a doc comment."}, IgLine{Text: ""})
+		nl = append(nl, nf.Lines[at-1:]...)
+		nf.Lines = nl
+		v.Inserted, v.insertedN = at, 4
+		v.From, v.To = 1, len(nf.Lines)+1
 	case PlOtherFile:
 		other := -1
 		for i, of := range b.Files {
@@ -546,6 +602,9 @@ func MakeVariant(b *IgBase, fidx, line int, pl IgPlacement, comment string) (*Ig
 // MapLine converts a base line number of file fidx into the variant's numbering.
 func (v *IgVariant) MapLine(fidx, line int) int {
 	if fidx == v.File && v.Inserted != 0 && line >= v.Inserted {
+		if v.insertedN > 0 {
+			return line + v.insertedN
+		}
 		return line + 1
 	}
 	return line
